@@ -15,13 +15,13 @@ HARNESSES = [
     timeout={'quick': 300, 'thorough': 900}),
 ] + [
   H('report_m%d_c%d' % (m, c), 'c', 'harness/C20/h_report.c', tracked=['src/express/error.c'],
-    defs={'quick': {'ARGLEN': 4, 'VERIF_OUT_CAP': 128, 'ONLY_MODE': m, 'ONLY_CODE': c}, 'thorough': {'ARGLEN': 6, 'VERIF_OUT_CAP': 128, 'ONLY_MODE': m, 'ONLY_CODE': c}}, unwind=130,
+    defs={'quick': {'ARGLEN': 4, 'VERIF_OUT_CAP': 128, 'VERIF_STR_MAX': 128, 'ONLY_MODE': m, 'ONLY_CODE': c}, 'thorough': {'ARGLEN': 6, 'VERIF_OUT_CAP': 128, 'VERIF_STR_MAX': 128, 'ONLY_MODE': m, 'ONLY_CODE': c}}, unwind=130,   # VERIF_STR_MAX: the buffered modes print the whole stored message through one %s
     cflags=['-I/repo'], models=[PM], tiers=('quick', 'thorough') if not (m & 1) else ('thorough',),
     bounds='forked per query: mode %d (%s, entry %s), diagnostic %s; symbolic: argument string of 1..4 (thorough 6) printable bytes / any printable char / count 0..255, line 0..255'
            % (m, 'buffered' if m & 1 else 'unbuffered', 'ERRORreport_with_symbol' if m & 2 else 'ERRORreport_with_line', CODES[c]),
     stubs=['vsnprintf/vfprintf/fprintf/fputc: content model lib/cmodels/printf_model.c (diffed against glibc at setup)', 'message buffer: static 4000-byte array instead of malloc(4000); signal() not installed', 'exit/abort not reached (no EXIT-class code in the set)'],
     out_of_claim='semantic diagnostics raised on parser-built ASTs; line-number accuracy; numbers above 255',
-    timeout={'quick': 300, 'thorough': 1800}) for m in (0, 1, 2, 3) for c in range(6)
+    timeout={'quick': 300, 'thorough': 1800}, mem_gb=30) for m in (0, 1, 2, 3) for c in range(6)
 ]
 HARNESSES += [
   H('lexsite_encoded_string', 'c', 'harness/C06/h_lexact.c', tracked=['src/express/lexact.c'], cflags=['-I/repo'], models=['lib/cmodels/printf_null.c'],
